@@ -157,8 +157,14 @@ def run_harnesses(scratch, harnesses, jobs=16, timeout_each=300, overall_timeout
         cmd += ["--harness", h]
     cmd += ["--exact"] if False else []
     t0 = time.time()
+
+    def _limit():
+        # keep a runaway CBMC from exhausting the machine: 24 GB of address space per process
+        import resource
+        lim = int(os.environ.get("VERIF_MEM_GB", "24")) << 30
+        resource.setrlimit(resource.RLIMIT_AS, (lim, lim))
     try:
-        p = subprocess.run(cmd, cwd=scratch, env=kani_env(), capture_output=True, text=True, timeout=overall_timeout)
+        p = subprocess.run(cmd, cwd=scratch, env=kani_env(), capture_output=True, text=True, timeout=overall_timeout, preexec_fn=_limit)
         out = p.stdout + "\n" + p.stderr
         rc = p.returncode
     except subprocess.TimeoutExpired as e:
